@@ -65,6 +65,10 @@ pub struct SimSource {
 }
 
 impl SimSource {
+    /// bytes this source will deliver
+    pub fn len(&self) -> usize {
+        self.data.len()
+    }
     pub fn new(data: Arc<Vec<u8>>, frag: Frag, pending16: u32) -> Self {
         SimSource { data, pos: 0, frag, pending16, fail_at: None, reads: 0 }
     }
